@@ -851,10 +851,12 @@ class RouterAnalysis:
         def own(t): return strip_targs(t[0]).startswith(CSR) and t[4] == ltype        # the router's lock field, or the handle's reference / pointer to it (flow: CR.2)
         ftype_ = {(c_['fullname'], f_['name']): f_['ctype'] for c_ in F.classes.values() for f_ in c_['fields']}
         per_root = {}
+        written_own = {(a.cls, a.field) for a in eng.accesses if a.mode == 'W' and strip_targs(a.cls) == CSR and not a.ctor_obj}
         for a in eng.accesses:
             g = strip_targs(a.root[1])
             if not (g.startswith(CSR)): continue
             own_state = strip_targs(a.cls) == CSR and a.field not in (lname, 'm_router') and not common.rw_lock_type(F, ftype_.get((a.cls, a.field), ''))
+            if own_state and ((ftype_.get((a.cls, a.field), '') or '').startswith('const ') or (a.cls, a.field) not in written_own): continue       # fixed at construction (const, or never written by a member function): nothing to serialise
             # the concurrent router's own members (a cache, a counter kept beside the router) are state of the operation like the router's:
             # atomic or not, what an operation does to them belongs inside its critical section
             if not strip_targs(a.cls).startswith(shared_cls) and not own_state: continue
